@@ -1,6 +1,6 @@
 CHECK = {
     "id": "C05", "level": "exploration",
-    "rule": ("case = one history: a seeded program (25 steps quick, 60 thorough) over a growing pool of live Manifolds (whole public API via "
+    "rule": ("case = one history: a seeded program (25 steps quick, 50 thorough) over a growing pool of live Manifolds (whole public API via "
              "common/dsl.h) or CrossSections; every object starts being observed at a seeded delay (possibly after objects were derived "
              "from it while it was lazy); after EVERY later step every observed object is re-observed getter by getter, in random order "
              "(GetMeshGL64 hash of all fields, NumVert/Edge/Tri/Prop/PropVert, BoundingBox, GetTolerance, Status, OriginalID, IsEmpty, Genus, "
@@ -10,11 +10,11 @@ CHECK = {
     "min_nontrivial": {"quick": 60, "thorough": 120},
     "stages": [
         {"name": "manifold", "variant": "asan", "harness": "c05_values.cpp",
-         "cases": {"quick": 320, "thorough": 10000},
-         "params": {"steps": {"quick": 25, "thorough": 60}, "maxTris": {"quick": 1500, "thorough": 6000}}, "case_timeout": 600},
+         "cases": {"quick": 320, "thorough": 2000},
+         "params": {"steps": {"quick": 25, "thorough": 50}, "maxTris": {"quick": 1500, "thorough": 6000}}, "case_timeout": 600},
         {"name": "cross", "variant": "asan", "harness": "c05_values.cpp",
-         "cases": {"quick": 480, "thorough": 12000},
-         "params": {"mode": "cross", "steps": {"quick": 25, "thorough": 60}}, "case_timeout": 600},
+         "cases": {"quick": 480, "thorough": 3000},
+         "params": {"mode": "cross", "steps": {"quick": 25, "thorough": 50}}, "case_timeout": 600},
     ],
     "assumptions": ["observations are compared by a 128-bit hash of the raw bytes of every exported field"],
 }
